@@ -1,5 +1,6 @@
 import SimuVerif.Lemmas.RemeshPassLive
 import SimuVerif.Lemmas.SurfaceCheckers
+import SimuVerif.Model.CellOkCheck
 /-
   A Boolean test for the invariants `CellOk` (for the cell a run STARTS from: everything afterwards is a theorem), its
   soundness, and non-vacuity: the octahedron built by `initCell` over ℚ satisfies `CellOk`, evaluated by the kernel.
@@ -14,34 +15,6 @@ open Simu.C11 (bind_ok newSlot)
 section
 variable {R : Type} [Add R] [Sub R] [Mul R] [Div R] [Neg R] [Lit R] [LT R] [LE R] [DecidableLT R]
   [DecidableLE R] [DecidableEq R]
-
-/-- the node store: the queue has no repetition, holds unused slots only, every unused slot is queued, the corners of
-    the used faces are used slots -/
-def nodesOkB (c : Cell R) : Bool :=
-  decide c.freeNodes.Nodup &&
-  c.freeNodes.all (fun i => decide (i < c.nodes.size) && !usedN c i) &&
-  (List.range c.nodes.size).all (fun i => usedN c i || c.freeNodes.contains i) &&
-  c.faces.toList.all (fun f => !f.used || fUsed c f)
-
-/-- every used node slot is a corner of a used face -/
-def coveredB (c : Cell R) : Bool :=
-  (List.range c.nodes.size).all (fun i => !usedN c i || (abs c).any (fun t => hasNode t i))
-
-/-- every unused face slot is queued -/
-def fullB (c : Cell R) : Bool :=
-  (List.range c.faces.size).all (fun i =>
-    match c.faces[i]? with
-    | some f => f.used || c.freeFaces.contains i
-    | none => true)
-
-/-- every node of the surface has a single fan of faces -/
-def allVmcB (c : Cell R) : Bool :=
-  (List.range c.nodes.size).all (fun v => !(abs c).any (fun t => hasNode t v) || vertexManifoldAutoB c v)
-
-/-- the invariants `CellOk`, decidably -/
-def cellOkB (c : Cell R) : Bool :=
-  faceFreeOkB c && edgeIdxCompleteB c && nodesOkB c && closedSimpleB (abs c) && nonDegB (abs c) && allVmcB c &&
-    coveredB c && c.nodes.toList.any (fun n => n.used) && fullB c
 
 theorem nodesOk_of_B {c : Cell R} (h : nodesOkB c = true) : NodesOk c := by
   unfold nodesOkB at h
